@@ -40,6 +40,14 @@ func (gr *groupsRun) handlers(hs *Sx) []flamego.Handler {
 	return out
 }
 
+func (gr *groupsRun) wrapper(h flamego.Handler) flamego.Handler {
+	fn, ok := h.(func())
+	if !ok {
+		return h
+	}
+	return func() { gr.trace = append(gr.trace, 0); fn() }
+}
+
 func (gr *groupsRun) exec(stmts []*Sx) {
 	f := gr.f
 	for _, s := range stmts {
@@ -104,6 +112,12 @@ func (gr *groupsRun) exec(stmts []*Sx) {
 			}
 		case "autohead":
 			f.AutoHead(a[0].Atom == "1")
+		case "wrapper": // installed or taken off between two declarations
+			if a[0].Atom == "1" {
+				f.HandlerWrapper(gr.wrapper)
+			} else {
+				f.HandlerWrapper(nil)
+			}
 		default:
 			panic(badInput("stmt " + s.String()))
 		}
@@ -112,15 +126,12 @@ func (gr *groupsRun) exec(stmts []*Sx) {
 
 func runGroups(in *Sx) *Sx {
 	gr := &groupsRun{f: flamego.NewWithLogger(io.Discard)}
-	if w := in.Field("wrap"); w != nil && w.Args()[0].Atom == "1" {
+	// programs with a HandlerWrapper (installed from the start or by a wrapper statement) use handlers without a fast invoker
+	if w := in.Field("wrap"); (w != nil && w.Args()[0].Atom == "1") || strings.Contains(in.Field("prog").String(), "(wrapper ") {
 		gr.wrap = true
-		gr.f.HandlerWrapper(func(h flamego.Handler) flamego.Handler {
-			fn, ok := h.(func())
-			if !ok {
-				return h
-			}
-			return func() { gr.trace = append(gr.trace, 0); fn() }
-		})
+	}
+	if w := in.Field("wrap"); w != nil && w.Args()[0].Atom == "1" {
+		gr.f.HandlerWrapper(gr.wrapper)
 	}
 	status := T("ok")
 	func() {
@@ -303,7 +314,11 @@ func (g *groupsGen) stmts(depth int, prefix string, n int) []*Sx {
 			out = append(out, T("combo", append([]*Sx{X(path), g.hs(2)}, uses...)...))
 			g.probe([]string{"GET", "POST", "PUT", "DELETE", "HEAD", "PATCH", "OPTIONS"}, prefix, full)
 		default:
-			out = append(out, T("autohead", B(rng.Intn(2) == 0)))
+			if rng.Intn(3) == 0 {
+				out = append(out, T("wrapper", B(rng.Intn(2) == 0)))
+			} else {
+				out = append(out, T("autohead", B(rng.Intn(2) == 0)))
+			}
 		}
 	}
 	return out
